@@ -89,6 +89,42 @@ def cook_publication_order(spec):
 
 
 # ---------------------------------------------------------------------------
+# C03: the Start / End nodes of an element are built from the fields of its OWN start / end tag
+# (with Compiler.visit_Start / visit_End emitting exactly those fields: contracts/compiler_emit.py)
+# ---------------------------------------------------------------------------
+def tag_nodes_frame(spec):
+    t0 = time.time()
+    fn = find(parse('zpt/program.py'), 'MacroProgram.visit_element')
+    obls = []
+
+    def field_of(n, var):
+        """n is var['f'] or self._maybe_trim(var['f']) -> 'f'"""
+        if isinstance(n, ast.Call) and isinstance(n.func, ast.Attribute) and n.func.attr == '_maybe_trim' \
+                and len(n.args) == 1:
+            n = n.args[0]
+        if isinstance(n, ast.Subscript) and isinstance(n.value, ast.Name) and n.value.id == var and \
+                isinstance(n.slice, ast.Constant):
+            return n.slice.value
+        return None
+    want = {'End': ('end', ['name', 'space', 'prefix', 'suffix']),
+            'Start': ('start', ['name', 'prefix', 'suffix'])}
+    for cls, (var, fields) in want.items():
+        calls = [n for n in ast.walk(fn) if isinstance(n, ast.Call) and isinstance(n.func, ast.Attribute)
+                 and n.func.attr == cls and isinstance(n.func.value, ast.Name) and n.func.value.id == 'nodes']
+        # the node built for the element itself is the one whose arguments are tag fields; the
+        # on-error fallback synthesises a plain tag from the start tag's name (not a copy of source text)
+        main = [c for c in calls if any(field_of(a, 'start') or field_of(a, 'end') for a in c.args)]
+        got = [[field_of(a, var) for a in c.args[:len(fields)]] for c in main]
+        ok = bool(main) and all(g == fields for g in got)
+        obls.append(ob('visit_element.%s_node_fields' % cls.lower(), ok,
+                       'nodes.%s for an element is built from %s of its own %s tag, in this order'
+                       % (cls, ', '.join("%s['%s']" % (var, f) for f in fields), var),
+                       {'constructions': [ast.unparse(c) for c in main], 'fields_found': got}))
+    return {'unit': 'frames.tag_nodes_frame', 'function': 'zpt/program.py::MacroProgram.visit_element',
+            'obligations': obls, 'wall': time.time() - t0}
+
+
+# ---------------------------------------------------------------------------
 # C11 / C19: a TemplateError passing through BaseTemplate._cook keeps its anchoring
 # (token text, position and the source the position refers to); only the file name is filled in
 # ---------------------------------------------------------------------------
